@@ -162,6 +162,47 @@ def discover_memos(P, G, eff):
     return memos
 
 
+def late_dict_stores(ctx, eff, memos):
+    """Any `self.M[K] = V` outside construction is a hand-written cache, whatever guards it.  Two obligations beyond the
+    read-set rule: (a) every parameter of the storing function that V depends on must be part of K (otherwise a later
+    call with the same K and another argument is answered from the entry); (b) V must not depend on whether ANOTHER
+    lazily filled attribute happens to be loaded (`self.X is None` tests on memo attributes): that is the call history."""
+    from ..footer import _def_chain
+    lazy = {m['attr'] for m in memos if m['kind'] in ('none', 'dict') and m['attr']}
+    for c in eff.classes:
+        for m in c.methods.values():
+            if m.qualname in eff.init_funcs:
+                continue
+            params = set(m.params[1:] + m.kwonly)
+            for st in ast.walk(m.node):
+                if not (isinstance(st, ast.Assign) and isinstance(st.targets[0], ast.Subscript) and
+                        isinstance(st.targets[0].value, ast.Attribute) and U(st.targets[0].value.value) == 'self'):
+                    continue
+                attr = st.targets[0].value.attr
+                vchain = _def_chain(m, st.value)
+                kchain = _def_chain(m, st.targets[0].slice)
+                vpar = {x.id for e in vchain for x in ast.walk(e) if isinstance(x, ast.Name) and x.id in params}
+                kpar = {x.id for e in kchain for x in ast.walk(e) if isinstance(x, ast.Name) and x.id in params}
+                missing = sorted(vpar - kpar)
+                if missing:
+                    ctx.fail('C15.1', m, st, 'self.%s[%s] caches a value that depends on the argument%s %s, which %s not part of '
+                             'the key: a later call with the same key and another %s is answered from the entry of an '
+                             'earlier call (history dependence)' % (attr, U(st.targets[0].slice), 's' if len(missing) > 1 else '',
+                                                                   ', '.join(missing), 'are' if len(missing) > 1 else 'is',
+                                                                   missing[0]), key_extra='%s|%s' % (attr, ','.join(missing)))
+                else:
+                    ctx.ok('C15.1', m, st, 'cache self.%s: the stored value depends on no argument outside its key' % attr)
+                # (b) presence tests of other lazily filled attributes
+                for e in vchain:
+                    for x in ast.walk(e):
+                        if isinstance(x, ast.Compare) and len(x.ops) == 1 and isinstance(x.ops[0], (ast.Is, ast.IsNot)) and \
+                                U(x.comparators[0]) == 'None' and isinstance(x.left, ast.Attribute) and U(x.left.value) == 'self' \
+                                and x.left.attr in lazy and x.left.attr != attr:
+                            ctx.fail('C15.1', m, st, 'self.%s[%s] caches a value chosen by whether self.%s has been loaded yet '
+                                     '(`%s`): the result depends on which other reads happened before' % (
+                                         attr, U(st.targets[0].slice), x.left.attr, U(x)), key_extra='%s|loaded:%s' % (attr, x.left.attr))
+
+
 def region_reads(eff, memo):
     """read closure restricted to the memoised region (+ everything it calls)."""
     f = memo['func']
@@ -211,6 +252,7 @@ def run(ctx):
     ctx.rule('C15.6', 'chunk_cache_size, preload and multithreading do not flow into values')
     eff = Effects(P, G)
     memos = discover_memos(P, G, eff)
+    late_dict_stores(ctx, eff, memos)
     memo_attrs = {m['attr'] for m in memos if m['attr']}
     if len(memos) < 10:
         raise AnalysisError('found %d memos, floor is 10' % len(memos))
